@@ -1087,6 +1087,11 @@ def criteria_parser(criteria):
             if check is not None:
                 return check
 
+        elif op == operator.ne and not is_number(value):
+            wildcard = build_wildcard_re(value)
+            if wildcard is not None:
+                return lambda x: not wildcard(x)
+
         if is_number(value):
             value = coerce_to_number(value)
 
